@@ -94,6 +94,8 @@ def binary_logic(fn: str, w: int, op: str) -> Contract:
     for name in ["CF", "OF", "SF", "ZF", "PF"]:
         ens.append((f"logic.{fn}.{name}", f"vm.arch.flag & {S}::{name} == {lg}.1 & {S}::{name}"))
     ens.append((f"logic.{fn}.other_flag_bits", f"vm.arch.flag & !{S}::STATUS6 == old(vm.arch.flag) & !{S}::STATUS6"))
+    # AF: undefined in the manual, but the property statement (C02) says "nothing else in the machine changes"
+    ens.append((f"logic.{fn}.AF_unchanged", f"vm.arch.flag & {S}::AF == old(vm.arch.flag) & {S}::AF"))
     h = fenced() + f"        let in_op1: {t} = kani::any();\n        let in_op2: {t} = kani::any();\n        let _ = {fn}(&mut vm, in_op1, in_op2);\n        {V}::forget_vm(vm);\n"
     return Contract(fn, ["C02", "C09"], [], ["&vm.arch.flag"], ens, t, h,
                     replay={"kind": "l1_binary", "fn": fn, "w": w, "spec": "logic", "op": op})
